@@ -268,6 +268,9 @@ def paperData (P : RP) (w : Wallet.Wallet) (s : String) : Option (Option (Option
     | [acct, a, b] => do
       let acct ← unnat acct; let a ← unnat a; let b ← unnat b
       pure ((Wallet.generate P w acct a b).map some)
+    | ["p", acct, a, b] => do      -- the paranoia-filtered report, as `main` hands it to pprint / export_wallet
+      let acct ← unnat acct; let a ← unnat a; let b ← unnat b
+      pure (((Wallet.generate P w acct a b).bind Wallet.paranoia).map some)
     | _ => none
 
 /-! ### the operations -/
@@ -425,6 +428,15 @@ def step (line : String) : String :=
   | ["mn_from_ent", e] => orBad do
       let e ← unstr e
       pure (optS strS (Bip39.mnemonicFromEntropy Real.sha256 e))
+  | ["mn_slen", n] => orBad do
+      let n ← unnat n
+      pure (okS (toString (Bip39.sentenceLength n)))
+  | ["mn_cslen", n] => orBad do
+      let n ← unnat n
+      pure (okS (toString (Bip39.checksumLength n)))
+  | ["mn_bits_ok", n] => orBad do
+      let n ← unnat n
+      pure (if n ∈ Generated.correctEntropyBits then okS "1" else "err")
   | ["mn_new", osbytes, bits] => orBad do
       let ob ← unhex osbytes; let bits ← unnat bits
       pure (optS strS (Bip39.mnemonicFromEntropyBits Real.sha256 (fun k => ob.take k) bits))
